@@ -66,6 +66,43 @@ pub fn run(thorough: bool, seed: u64, w: &mut impl std::io::Write) {
         es_line(&rng.bytes(len, &[]), w);
         n += 1;
     }
+    // context: every byte value at every position 0..40 of a filler string (in the middle and as the last byte)
+    for v in 0..=255u8 {
+        for p in 0..=40usize {
+            for filler in [b'a', b'\\', 0x80u8] {
+                let mut s1 = vec![filler; 41];
+                s1[p] = v;
+                es_line(&s1, w);
+                let mut s2 = vec![filler; p + 1];
+                s2[p] = v;
+                es_line(&s2, w);
+                n += 2;
+            }
+        }
+    }
+    // pairs and triples of special bytes at several alignments
+    let special = [b'\\', b'\'', b'"', b'\n', b'\r', b'\t', 0u8, 0x7f, 0x80, 0xff, b'a', 0x1f, 0x20, 0x7e];
+    for &x in &special {
+        for &y in &special {
+            for p in 0..18usize {
+                let mut s1 = vec![b'z'; 24];
+                s1[p] = x;
+                s1[p + 1] = y;
+                es_line(&s1, w);
+                n += 1;
+            }
+            for &z in &special[..8] {
+                for p in [0usize, 6, 7, 8, 14, 15, 30] {
+                    let mut s1 = vec![b'q'; 33];
+                    s1[p] = x;
+                    s1[p + 1] = y;
+                    s1[p + 2] = z;
+                    es_line(&s1, w);
+                    n += 1;
+                }
+            }
+        }
+    }
     let alpha = [b'a', b'\n', b'"', 0x80, 0xff, b'\\'];
     let mut m = 0;
     m += states::<0>(&alpha, w);
@@ -75,6 +112,25 @@ pub fn run(thorough: bool, seed: u64, w: &mut impl std::io::Write) {
     if thorough {
         m += states::<4>(&alpha, w);
     }
+    // every (ri, wi) of moderate buffers whose bytes mix specials; sizes around decimal-width changes for Debug
+    fn shapes<const N: usize>(stride: usize, w: &mut impl std::io::Write) -> usize {
+        let mem: Vec<u8> = (0..N).map(|i| [b'a', b'\\', b'"', b'\n', 0x80, 0x7f, 0, b'\'', 0xff, b'\t'][(i * 7 + i / 10) % 10]).collect();
+        let mut m = 0;
+        let mut wi = 0;
+        while wi <= N {
+            let mut ri = 0;
+            while ri <= wi {
+                if !(ri == wi && ri > 0) {
+                    eb_line::<N>(&mem, ri, wi, w);
+                    m += 1;
+                }
+                ri += if ri < 12 || wi - ri < 12 { 1 } else { stride };
+            }
+            wi += if wi < 12 || N - wi < 12 { 1 } else { stride };
+        }
+        m
+    }
+    m += shapes::<9>(1, w) + shapes::<10>(1, w) + shapes::<33>(1, w) + shapes::<99>(5, w) + shapes::<100>(5, w) + shapes::<101>(7, w) + shapes::<1000>(97, w);
     // large sizes: decimal rendering of SIZE / free / len with several digits
     let mut big = vec![0u8; 255];
     for (i, x) in big.iter_mut().enumerate() {
